@@ -20,7 +20,8 @@ Section Gate.
   Proof.
     unfold get_project. intros path s r root' H.
     destruct (negb (os_exists root cwd path)); [discriminate|].
-    destruct (negb s && negb (os_isfile root cwd (cfgfn cwd path))); [discriminate|].
+    destruct (negb s && negb (os_isfile root cwd (cfgfn cwd path)));
+      [destruct (raise_if_older root cwd path); discriminate|].
     destruct (locate_config_dir root cwd path) as [[d|]|x] eqn:L; try discriminate.
     apply locate_Some in L. apply project_open_Ok in H. destruct H as [_ [_ [c [R V]]]].
     exists d, c. auto.
@@ -89,13 +90,24 @@ Section Gate.
     - rewrite (older_up_first _ _ _ (older_raises _ v G V)). reflexivity.
   Qed.
 
+  (* search=False on a legacy project (since fix 7826961): refused AS SUCH, nothing touched *)
+  Lemma gate_get_project_nosearch_legacy : forall path v,
+    os_exists root cwd path = true -> cfg_at root cwd path = false ->
+    get_version root cwd path SCHEMA = Some v -> v <> SCHEMA ->
+    get_project root cwd path false = (Err EIncompatibleSchemaVersion, root).
+  Proof.
+    intros path v X C G V. unfold get_project. rewrite X. unfold cfg_at in C. rewrite C. simpl.
+    rewrite (older_raises path v G V). reflexivity.
+  Qed.
+
   Lemma gate_init_project_legacy : forall path v,
     cfg_at root cwd path = false -> get_version root cwd path SCHEMA = Some v -> v <> SCHEMA ->
     init_project root cwd path = (Err EIncompatibleSchemaVersion, root).
   Proof.
-    intros path v C G V. unfold init_project.
-    rewrite (get_project_nosearch_refuses root cwd path C).
-    unfold init_new. rewrite (older_raises path v G V). reflexivity.
+    intros path v C G V. unfold init_project, get_project.
+    destruct (os_exists root cwd path); simpl.
+    - unfold cfg_at in C. rewrite C. simpl. rewrite (older_raises path v G V). reflexivity.
+    - unfold init_new. rewrite (older_raises path v G V). reflexivity.
   Qed.
 End Gate.
 
